@@ -507,6 +507,12 @@ def server_work(item):
                     # the repaired tree needs a fraction of a second)
                     problems.append({"kind": "one-line-keeps-the-server-busy", "seconds": round(stalled, 1),
                                      "line_length": len(line) if not isinstance(line, tuple) else len(line[1])})
+                if state == "anon-data" and not isinstance(line, tuple) and hostile.data is not None:
+                    # a transfer command that was let through to its worker (1xx) and then failed has used the data
+                    # connection up: the peer is not left waiting on it for the rest of the session
+                    got = [c for c, _ in (hostile.ctl.take_replies() or [])]
+                    if any(c[:1] == "1" for c in got) and any(c[:1] in "45" for c in got) and not hostile.data.eof:
+                        problems.append({"kind": "data-connection-of-a-failed-transfer-left-open", "codes": got})
                 if isinstance(line, tuple) and rig.snapshot() != tree_before:
                     # the stream ended before the line did: what the peer meant to send is unknown (`DELE g` may be
                     # the beginning of `DELE g.bak`) - a command that was cut off is not carried out
